@@ -306,7 +306,7 @@ func funcInfoOf(name string) funcInfo {
 //@   ensures[C05] counter: c.varCounter == old(c.varCounter) + 1 && routeOK(c)
 //
 //@ func (*converter).SliceAssignment
-//@   ensures[C05] value-in-register-then-helper-call-on-the-right-variable: appended(specBlock(c), old(specBlockBefore(c)), specSet("_fa0", value), "call :_sah " + specName(len(c.funcs) > 0, c.funcCounter, name, global) + " " + index + " " + defaultValue)
+//@   ensures[C05,C10] value-in-register-then-helper-call-on-the-right-variable: appended(specBlock(c), old(specBlockBefore(c)), specSet("_fa0", value), "call :_sah " + specName(len(c.funcs) > 0, c.funcCounter, name, global) + " " + index + " " + defaultValue)
 //
 //@ func (*converter).SliceLen
 //@   ensures[C05] length-copied-into-a-fresh-helper: appended(specBlock(c), old(specBlockBefore(c)), "call :_slg " + name, specSet(specName(len(c.funcs) > 0, c.funcCounter, specHelperName(old(c.varCounter)), false), "!_len!")) && result0 == specRef(specName(len(c.funcs) > 0, c.funcCounter, specHelperName(old(c.varCounter)), false)) && c.varCounter == old(c.varCounter) + 1
@@ -315,10 +315,10 @@ func funcInfoOf(name string) funcInfo {
 //@   ensures[C05] indirect-read-into-a-fresh-helper: appended(specBlock(c), old(specBlockBefore(c)), "for /f \"delims=\" %%i in (\"" + name + "_" + index + "\") do set \"" + specName(len(c.funcs) > 0, c.funcCounter, specHelperName(old(c.varCounter)), false) + "=!%%i!\"") && result0 == specRef(specName(len(c.funcs) > 0, c.funcCounter, specHelperName(old(c.varCounter)), false)) && c.varCounter == old(c.varCounter) + 1 && err == nil
 //
 //@ func (*converter).StringSubscript
-//@   ensures[C05] value-in-register-then-helper-call: appended(specBlock(c), old(specBlockBefore(c)), specSet("_fa0", value), "call :_stsh " + startIndex + " " + endIndex, specSet(specName(len(c.funcs) > 0, c.funcCounter, specHelperName(old(c.varCounter)), false), "!_sub!")) && result0 == specRef(specName(len(c.funcs) > 0, c.funcCounter, specHelperName(old(c.varCounter)), false)) && c.varCounter == old(c.varCounter) + 1
+//@   ensures[C05,C10] value-in-register-then-helper-call: appended(specBlock(c), old(specBlockBefore(c)), specSet("_fa0", value), "call :_stsh " + startIndex + " " + endIndex, specSet(specName(len(c.funcs) > 0, c.funcCounter, specHelperName(old(c.varCounter)), false), "!_sub!")) && result0 == specRef(specName(len(c.funcs) > 0, c.funcCounter, specHelperName(old(c.varCounter)), false)) && c.varCounter == old(c.varCounter) + 1
 //
 //@ func (*converter).StringLen
-//@   ensures[C05] value-in-register-then-helper-call: appended(specBlock(c), old(specBlockBefore(c)), specSet("_fa0", value), "call :_stlh ", specSet(specName(len(c.funcs) > 0, c.funcCounter, specHelperName(old(c.varCounter)), false), "!_l!")) && result0 == specRef(specName(len(c.funcs) > 0, c.funcCounter, specHelperName(old(c.varCounter)), false)) && c.varCounter == old(c.varCounter) + 1
+//@   ensures[C05,C10] value-in-register-then-helper-call: appended(specBlock(c), old(specBlockBefore(c)), specSet("_fa0", value), "call :_stlh ", specSet(specName(len(c.funcs) > 0, c.funcCounter, specHelperName(old(c.varCounter)), false), "!_l!")) && result0 == specRef(specName(len(c.funcs) > 0, c.funcCounter, specHelperName(old(c.varCounter)), false)) && c.varCounter == old(c.varCounter) + 1
 //
 //@ func (*converter).Return
 //@   ensures[C05] jumps-to-own-return-label-last: len(specBlock(c)) >= 1 && specBlock(c)[len(specBlock(c)) - 1] == "goto :_ret_" + c.funcs[len(c.funcs) - 1].name
@@ -380,7 +380,7 @@ func funcInfoOf(name string) funcInfo {
 // argument), path and append flag are the helper's arguments in this order; read copies the
 // helper's result register into a fresh helper; exists sets a fresh helper to 1 or 0.
 //@ func (*converter).WriteFile
-//@   ensures[C17] content-in-register-then-helper-call: appended(specBlock(c), old(specBlockBefore(c)), specSet("_fa0", content), "call :_fwh " + path + " " + append) && result == nil
+//@   ensures[C17,C10] content-in-register-then-helper-call: appended(specBlock(c), old(specBlockBefore(c)), specSet("_fa0", content), "call :_fwh " + path + " " + append) && result == nil
 //
 //@ func (*converter).ReadFile
 //@   ensures[C17] helper-call-then-copy-of-its-register: appended(specBlock(c), old(specBlockBefore(c)), "call :_frh " + path, specSet(specName(len(c.funcs) > 0, c.funcCounter, specHelperName(old(c.varCounter)), false), "!_h!")) && result0 == specRef(specName(len(c.funcs) > 0, c.funcCounter, specHelperName(old(c.varCounter)), false)) && c.varCounter == old(c.varCounter) + 1 && err == nil
